@@ -4,11 +4,11 @@
     enlarged it to 16*dblEpsilon.  With that guard the rounding analysis closes: this file proves
     the statement from the single named hypothesis [H_REMAINDER] (math.Remainder(x, 2*pi) is
     exact), for every valid interval and every non-NaN margin >= 0 (including +Inf) ...
-    FINDING (still present): ... except that Length() returns -1 for the valid, non-empty
-    interval {pi, succ(-pi)} (its true length 2^-51 vanishes when 2*pi is added), so the guard
-    does not fire for margins in [pi, pi+1/2) and the result loses every point
-    ([s1_expanded_keeps_everything_refuted]); the theorems therefore carry [len_ok]:
-    Length() >= 0 or margin <= 3. *)
+    History 2: Length() used to return -1 for the valid, non-empty interval {pi, succ(-pi)} (its
+    true length 2^-51 vanishes when 2*pi is added), so the guard did not fire for margins in
+    [pi, pi+1/2) and the result lost every point ([s1_expanded_oldlength_refuted]); /repo commit
+    e59a11e returns 0 there.  [length_spec] now gives Length() >= 0 for every valid non-empty
+    interval and the theorems hold without further premise. *)
 From Coq Require Import ZArith Reals Floats Lra Lia Bool List Psatz.
 From Flocq Require Import Core.Core IEEE754.BinarySingleNaN IEEE754.PrimFloat.
 From Geo Require Import Base.GoPrim Base.F64 Base.F64Arith Gen.S1 Proofs.C19_S1.
@@ -89,15 +89,16 @@ Lemma mone_val : RV mone = -1. Proof. unfold mone. lit_value. Qed.
 
 (** what Length computes, against the true arc length *)
 Lemma length_spec lo hi : fin lo -> fin hi -> - qpi <= RV lo <= qpi -> - qpi <= RV hi <= qpi ->
+  s1_Interval_IsEmpty (mk_s1_Interval lo hi) = false ->
   let L := s1_Interval_Length (mk_s1_Interval lo hi) in
-  fin L /\ -1 <= RV L < 8 /\
+  fin L /\ 0 <= RV L < 8 /\
   (RV lo <= RV hi -> Rabs (RV L - (RV hi - RV lo)) <= u51) /\
   (RV hi < RV lo ->
      (0 <= RV L -> Rabs (RV L - (RV hi - RV lo + 2 * qpi)) <= 2 * u51) /\
      (RV L < 0 -> RV hi - RV lo + 2 * qpi <= 2 * u51)).
 Proof.
-  intros Flo Fhi Rlo Rhi. unfold s1_Interval_Length. cbn [s1_Interval_Lo s1_Interval_Hi].
-  fold TWOPI. fold mone.
+  intros Flo Fhi Rlo Rhi E. unfold s1_Interval_Length. rewrite E. cbn [s1_Interval_Lo s1_Interval_Hi].
+  fold TWOPI.
   assert (Q : qpi = 7074237752028440 / 2251799813685248) by reflexivity.
   pose proof u51_val as U.
   destruct (sub8 hi lo Fhi Flo ltac:(apply abs_lt; lra)) as [F0 [E0 D0]].
@@ -122,10 +123,19 @@ Proof.
       split; [exact F1|]. split; [lra|]. split; [intros; lra|].
       intros _. split; [intros _; apply Rabs_le; lra|intros; lra].
     + apply (ltb_RV_false _ _ zero_fin F1) in C1. rewrite zero_RV in C1.
-      assert (Fm : fin mone) by (apply (lit_fin mone true 4503599627370496%positive (-52)%Z); reflexivity).
-      rewrite mone_val.
-      split; [exact Fm|]. split; [lra|]. split; [intros; lra|].
-      intros _. split; [intros; lra|intros _; lra].
+      rewrite zero_RV.
+      split; [exact zero_fin|]. split; [lra|]. split; [intros; lra|].
+      intros _. split; [intros _; apply Rabs_le; lra|intros; lra].
+Qed.
+
+(** Length() is non-negative on every valid non-empty interval (the -1 sentinel is for empty only) *)
+Lemma length_nonneg i : valid_s1 i -> s1_Interval_IsEmpty i = false ->
+  PrimFloat.leb 0%float (s1_Interval_Length i) = true.
+Proof.
+  destruct i as [lo hi]. intros [Vlo [Vhi _]] E. cbn [s1_Interval_Lo s1_Interval_Hi] in *.
+  destruct (vpt_fin lo Vlo) as [Flo Rlo]. destruct (vpt_fin hi Vhi) as [Fhi Rhi].
+  destruct (length_spec lo hi Flo Fhi Rlo Rhi E) as [FL [BL _]].
+  apply (leb_RV _ _ zero_fin FL). rewrite zero_RV. lra.
 Qed.
 
 (** * The numeric core of Expanded *)
@@ -135,11 +145,6 @@ Definition exp_full_guard (lo hi m : PrimFloat.float) : bool :=
   PrimFloat.leb TWOPI
     (PrimFloat.add (PrimFloat.add (s1_Interval_Length (mk_s1_Interval lo hi)) (PrimFloat.mul 2%float m))
                    (PrimFloat.mul (0x1p+04)%float s1_dblEpsilon)).
-(** Length() is negative for exactly one valid non-empty interval, {pi, succ(-pi)} (its true
-    length 2^-51 is lost when adding 2*pi); the margin must then stay below pi *)
-Definition len_ok (lo hi m : PrimFloat.float) : Prop :=
-  PrimFloat.leb 0%float (s1_Interval_Length (mk_s1_Interval lo hi)) = true \/ rank m <= 3.
-
 (** math.Remainder(x, 2*pi) is exact: x minus an integer multiple of 2*pi, in [-pi,pi], and the
     identity on [-pi,pi] *)
 Definition H_REMAINDER : Prop := forall x, fin x ->
@@ -155,10 +160,11 @@ Lemma two_fin : fin 2%float.
 Proof. apply (lit_fin 2%float false 4503599627370496%positive (-51)%Z). reflexivity. Qed.
 
 Lemma guard_fires_big lo hi m : fin lo -> fin hi -> - qpi <= RV lo <= qpi -> - qpi <= RV hi <= qpi ->
+  s1_Interval_IsEmpty (mk_s1_Interval lo hi) = false ->
   nonnan m -> 4 <= rank m -> exp_full_guard lo hi m = true.
 Proof.
-  intros Flo Fhi Rlo Rhi Nm Hm. unfold exp_full_guard. rewrite C16_is.
-  destruct (length_spec lo hi Flo Fhi Rlo Rhi) as [FL [BL _]].
+  intros Flo Fhi Rlo Rhi E Nm Hm. unfold exp_full_guard. rewrite C16_is.
+  destruct (length_spec lo hi Flo Fhi Rlo Rhi E) as [FL [BL _]].
   set (L := s1_Interval_Length (mk_s1_Interval lo hi)) in *.
   destruct (C19_Arith.mul2_ge8 m Nm Hm) as [N2 H2].
   destruct (C19_Arith.add_ge7 L _ FL ltac:(rewrite (rank_fin L FL); lra) N2 H2) as [N1 H1].
@@ -183,12 +189,12 @@ Hypothesis HR : H_REMAINDER.
 
 Lemma expand_numeric lo hi m : valid_s1 (mk_s1_Interval lo hi) ->
   s1_Interval_IsEmpty (mk_s1_Interval lo hi) = false ->
-  nonnan m -> 0 <= rank m -> exp_full_guard lo hi m = false -> len_ok lo hi m ->
+  nonnan m -> 0 <= rank m -> exp_full_guard lo hi m = false ->
   vpt (exp_lo lo m) /\ vpt (exp_hi hi m) /\
   forall y, - rpi < y <= rpi -> memR (rank lo) (rank hi) y ->
     memR (normR (rank (exp_lo lo m))) (norm_hi (rank (exp_lo lo m)) (rank (exp_hi hi m))) y.
 Proof.
-  intros V E Nm Hm G LK.
+  intros V E Nm Hm G.
   destruct V as [Vlo [Vhi [V1 V2]]]. cbn [s1_Interval_Lo s1_Interval_Hi] in *.
   destruct (vpt_fin lo Vlo) as [Flo Rlo]. destruct (vpt_fin hi Vhi) as [Fhi Rhi].
   rewrite (rank_fin lo Flo), (rank_fin hi Fhi) in *.
@@ -199,15 +205,15 @@ Proof.
     rewrite ?rank_NPI in E; fold rpi in E; rewrite ?(rank_fin lo Flo), ?(rank_fin hi Fhi) in E; lra. }
   (* large margins make the guard fire *)
   destruct (Rle_lt_dec 4 (rank m)) as [Big|Small].
-  { rewrite (guard_fires_big lo hi m Flo Fhi Rlo Rhi Nm Big) in G. discriminate. }
+  { rewrite (guard_fires_big lo hi m Flo Fhi Rlo Rhi E Nm Big) in G. discriminate. }
   pose proof top_pos as Tp.
   assert (T4 : 4 < top) by (unfold top; change 4 with (bpow radix2 2); apply bpow_lt; reflexivity).
   assert (Fm : fin m) by (apply C19_Arith.rank_fin; [exact Nm|lra]).
   rewrite (rank_fin m Fm) in *.
   pose proof rpi_val as RP. pose proof u51_val as U. pose proof c16_val as CV. pose proof twopi_val as TV.
   assert (Q : qpi = 7074237752028440 / 2251799813685248) by reflexivity.
-  destruct (length_spec lo hi Flo Fhi Rlo Rhi) as [FL [BL [Ln Li]]].
-  unfold exp_full_guard in G. unfold len_ok in LK. rewrite C16_is in G.
+  destruct (length_spec lo hi Flo Fhi Rlo Rhi E) as [FL [BL [Ln Li]]].
+  unfold exp_full_guard in G. rewrite C16_is in G.
   set (L := s1_Interval_Length (mk_s1_Interval lo hi)) in *.
   (* 2*m *)
   assert (A2 : Rabs (RV 2%float * RV m) <= 8) by (rewrite two_val; apply Rabs_le; lra).
@@ -256,10 +262,7 @@ Proof.
   split; [split; [apply fin_nonnan; exact Fl|unfold inrange; rewrite (rank_fin l Fl); lra]|].
   split; [split; [apply fin_nonnan; exact Fh|unfold inrange; rewrite (rank_fin h Fh); lra]|].
   rewrite (rank_fin l Fl), (rank_fin h Fh).
-  (* the anomalous Length = -1 *)
-  assert (LK' : 0 <= RV L \/ RV m <= 3).
-  { destruct LK as [LK|LK]; [left|right; rewrite (rank_fin m Fm) in LK; exact LK].
-    apply (leb_RV _ _ zero_fin FL) in LK. rewrite zero_RV in LK. exact LK. }
+  assert (LK' : 0 <= RV L \/ RV m <= 3) by (left; lra).
   assert (P1 : - rpi <= RV lo <= rpi) by (clear - Rlo RP; lra).
   assert (P2 : - rpi <= RV hi <= rpi) by (clear - Rhi RP; lra).
   assert (Dn : RV lo <= RV hi -> RV b - RV a < 2 * rpi).
@@ -300,14 +303,14 @@ Qed.
 
 Lemma expanded_result lo hi m : valid_s1 (mk_s1_Interval lo hi) ->
   s1_Interval_IsEmpty (mk_s1_Interval lo hi) = false -> nonnan m -> 0 <= rank m ->
-  exp_full_guard lo hi m = false -> len_ok lo hi m ->
+  exp_full_guard lo hi m = false ->
   let r := s1_Interval_Expanded (mk_s1_Interval lo hi) m in
   vpt (s1_Interval_Lo r) /\ vpt (s1_Interval_Hi r) /\
   rank (s1_Interval_Lo r) = normR (rank (exp_lo lo m)) /\
   rank (s1_Interval_Hi r) = norm_hi (rank (exp_lo lo m)) (rank (exp_hi hi m)).
 Proof.
-  intros V E Nm Hm G LK.
-  destruct (expand_numeric HR lo hi m V E Nm Hm G LK) as [[Nl Rl] [[Nh Rh] _]].
+  intros V E Nm Hm G.
+  destruct (expand_numeric HR lo hi m V E Nm Hm G) as [[Nl Rl] [[Nh Rh] _]].
   rewrite (expanded_unfold lo hi m Nm Hm E G).
   set (l := exp_lo lo m) in *. set (h := exp_hi hi m) in *. clearbody l h.
   unfold inrange in *. pose proof rpi_pos as Pp.
@@ -320,17 +323,16 @@ Proof.
 Qed.
 
 Theorem s1_expanded_valid_under_H i m : valid_s1 i -> nonnan m -> 0 <= rank m ->
-  len_ok (s1_Interval_Lo i) (s1_Interval_Hi i) m ->
   valid_s1 (s1_Interval_Expanded i m).
 Proof.
-  destruct i as [lo hi]. cbn [s1_Interval_Lo s1_Interval_Hi]. intros V Nm Hm LK.
+  destruct i as [lo hi]. cbn [s1_Interval_Lo s1_Interval_Hi]. intros V Nm Hm.
   destruct (s1_Interval_IsEmpty (mk_s1_Interval lo hi)) eqn:E.
   { unfold s1_Interval_Expanded. rewrite (leb0_m m Nm Hm), E. exact V. }
   destruct (exp_full_guard lo hi m) eqn:G.
   { unfold s1_Interval_Expanded. rewrite (leb0_m m Nm Hm), E.
     unfold exp_full_guard in G. fold TWOPI. rewrite G. apply s1_full_valid. }
-  destruct (expanded_result lo hi m V E Nm Hm G LK) as [VL [VH [EL EH]]].
-  destruct (expand_numeric HR lo hi m V E Nm Hm G LK) as [[Nl Rl] [[Nh Rh] _]].
+  destruct (expanded_result lo hi m V E Nm Hm G) as [VL [VH [EL EH]]].
+  destruct (expand_numeric HR lo hi m V E Nm Hm G) as [[Nl Rl] [[Nh Rh] _]].
   unfold valid_s1. split; [exact VL|]. split; [exact VH|].
   rewrite EL, EH. unfold norm_hi, inrange in *. pose proof rpi_pos.
   destruct (normR_cases (rank (exp_lo lo m))) as [[L1 Ln]|[L1 Ln]]; rewrite Ln;
@@ -339,30 +341,29 @@ Proof.
 Qed.
 
 Theorem s1_expanded_sound_under_H i m x : valid_s1 i -> nonnan m -> 0 <= rank m ->
-  len_ok (s1_Interval_Lo i) (s1_Interval_Hi i) m ->
   inrange x -> mem_s1 i x -> mem_s1 (s1_Interval_Expanded i m) x.
 Proof.
-  destruct i as [lo hi]. cbn [s1_Interval_Lo s1_Interval_Hi]. intros V Nm Hm LK Hx Hmem.
+  destruct i as [lo hi]. cbn [s1_Interval_Lo s1_Interval_Hi]. intros V Nm Hm Hx Hmem.
   destruct (s1_Interval_IsEmpty (mk_s1_Interval lo hi)) eqn:E.
   { unfold s1_Interval_Expanded. rewrite (leb0_m m Nm Hm), E. exact Hmem. }
   destruct (exp_full_guard lo hi m) eqn:G.
   { unfold s1_Interval_Expanded. rewrite (leb0_m m Nm Hm), E.
     unfold exp_full_guard in G. fold TWOPI. rewrite G.
     apply (proj1 (s1_isfull_spec _ s1_full_valid) s1_full_isfull x Hx). }
-  destruct (expanded_result lo hi m V E Nm Hm G LK) as [_ [_ [EL EH]]].
-  destruct (expand_numeric HR lo hi m V E Nm Hm G LK) as [_ [_ Hall]].
+  destruct (expanded_result lo hi m V E Nm Hm G) as [_ [_ [EL EH]]].
+  destruct (expand_numeric HR lo hi m V E Nm Hm G) as [_ [_ Hall]].
   unfold mem_s1 in *. cbn [s1_Interval_Lo s1_Interval_Hi] in Hmem. rewrite EL, EH.
   apply Hall; [apply normR_range; exact Hx|exact Hmem].
 Qed.
 
-(** the shape used by C10 (Proofs/C10_Rect.v, premise C19_s1_expanded_sound), for margins <= 3 *)
-Corollary s1_expanded_sound_small_margin i m : valid_s1 i -> nonnan m -> 0 <= rank m <= 3 ->
+(** the shape used by C10 (Proofs/C10_Rect.v, premise C19_s1_expanded_sound) *)
+Corollary s1_expanded_sound_any_margin i m : valid_s1 i -> nonnan m -> 0 <= rank m ->
   valid_s1 (s1_Interval_Expanded i m) /\
   forall x, inrange x -> mem_s1 i x -> mem_s1 (s1_Interval_Expanded i m) x.
 Proof.
-  intros V Nm [H0 H3]. split.
-  - apply s1_expanded_valid_under_H; auto. right. exact H3.
-  - intros x Hx Hm. apply s1_expanded_sound_under_H; auto. right. exact H3.
+  intros V Nm H0. split.
+  - apply s1_expanded_valid_under_H; auto.
+  - intros x Hx Hm. apply s1_expanded_sound_under_H; auto.
 Qed.
 End UnderH.
 
@@ -403,16 +404,46 @@ Proof.
   unfold exp_full_guard in G. fold TWOPI. rewrite G. reflexivity.
 Qed.
 
-(** * FINDING (present after 44b3e8d): without [len_ok] the statement is false of the code as it is *)
-Lemma s1_expanded_refuted : exists i m p,
+(** * History: Length() before /repo commit e59a11e returned -1 for a non-empty interval *)
+Definition s1_Interval_Length_old (v_i : s1_Interval) : PrimFloat.float :=
+  let v_l := PrimFloat.sub (s1_Interval_Hi v_i) (s1_Interval_Lo v_i) in
+  if PrimFloat.leb 0%float v_l then v_l else
+  let v_l := PrimFloat.add v_l TWOPI in
+  if PrimFloat.ltb 0%float v_l then v_l else (-0x1p+00)%float.
+(** Expanded (with the 16*dblEpsilon guard) over the old Length *)
+Definition s1_Interval_Expanded_oldlength (v_i : s1_Interval) (v_margin : PrimFloat.float) : s1_Interval :=
+  if PrimFloat.leb 0%float v_margin then
+    if s1_Interval_IsEmpty v_i then v_i else
+    if PrimFloat.leb TWOPI (PrimFloat.add (PrimFloat.add (s1_Interval_Length_old v_i) (PrimFloat.mul 2%float v_margin))
+                                          (PrimFloat.mul (0x1p+04)%float s1_dblEpsilon))
+    then s1_FullInterval
+    else let r := s1_IntervalFromEndpoints (exp_lo (s1_Interval_Lo v_i) v_margin) (exp_hi (s1_Interval_Hi v_i) v_margin) in
+         if PrimFloat.leb (s1_Interval_Lo r) NPI then set_s1_Interval_Lo r PI else r
+  else s1_Interval_Expanded v_i v_margin.
+
+Lemma s1_expanded_oldlength_refuted : exists i m p,
   s1_Interval_IsValid i = true /\ s1_Interval_IsEmpty i = false /\ PrimFloat.leb 0%float m = true /\
   s1_Interval_Contains i p = true /\
-  PrimFloat.ltb (s1_Interval_Length i) 0%float = true /\
-  s1_Interval_IsValid (s1_Interval_Expanded i m) = true /\
-  s1_Interval_Contains (s1_Interval_Expanded i m) p = false.
+  PrimFloat.ltb (s1_Interval_Length_old i) 0%float = true /\
+  s1_Interval_IsValid (s1_Interval_Expanded_oldlength i m) = true /\
+  s1_Interval_Contains (s1_Interval_Expanded_oldlength i m) p = false.
 Proof.
   exists (mk_s1_Interval PI (-0x1.921fb54442d17p+1)%float), (0x1.999999999999ap+1)%float, PI.
   vm_compute. repeat split; reflexivity.
 Qed.
-Example ex_len_ok : len_ok (-3)%float 1%float infinity.
-Proof. left. vm_compute. reflexivity. Qed.
+(** the same input on the repaired code: Length() = 0 and the expansion is the full circle *)
+Lemma s1_expanded_oldlength_witness_fixed :
+  let i := mk_s1_Interval PI (-0x1.921fb54442d17p+1)%float in
+  PrimFloat.eqb (s1_Interval_Length i) 0%float = true /\
+  s1_Interval_IsFull (s1_Interval_Expanded i (0x1.999999999999ap+1)%float) = true.
+Proof. vm_compute. split; reflexivity. Qed.
+(** old and new Length agree wherever the old one was not negative, and on the empty interval *)
+Lemma s1_length_old_same i :
+  PrimFloat.ltb (s1_Interval_Length_old i) 0%float = false \/ s1_Interval_IsEmpty i = true ->
+  s1_Interval_Length i = s1_Interval_Length_old i.
+Proof.
+  unfold s1_Interval_Length, s1_Interval_Length_old. fold TWOPI.
+  destruct (PrimFloat.leb 0%float (PrimFloat.sub (s1_Interval_Hi i) (s1_Interval_Lo i))); [reflexivity|].
+  destruct (PrimFloat.ltb 0%float (PrimFloat.add (PrimFloat.sub (s1_Interval_Hi i) (s1_Interval_Lo i)) TWOPI)); [reflexivity|].
+  intros [H|H]; [vm_compute in H; discriminate|rewrite H; reflexivity].
+Qed.
